@@ -25,6 +25,8 @@ func init() {
 			{ID: "C19.8", Desc: "a failed write to the file-system backend leaves no temporary file behind (the directory does not grow with failures)", Run: func(c *Ctx) { ruleC15_1(c); renameRule(c, "C15.1", "C19.8") }, MinSites: 1},
 			{ID: "C19.7", Desc: "the index reader hands out every listed reference (only null elements are dropped)", Run: ruleC19_7, MinSites: 1},
 			{ID: "C19.5", Desc: "values written to the JSON index survive the encoding", Run: func(c *Ctx) { ruleIndexValuesUTF8Safe(c, "C19.5") }, MinSites: 1},
+			{ID: "C19.9", Desc: "a 304 replaces the fields it carries (a Vary that grows with every validation grows the index record)", Run: func(c *Ctx) { ruleMergeFilter(c, "C19.9") }, MinSites: 1},
+			{ID: "C19.10", Desc: "the variant is resolved from the request the matcher sees, never from Response.Request", Run: func(c *Ctx) { ruleStorerGetsRoundTripRequest(c, "C19.10") }, MinSites: 1},
 		},
 	})
 	register(&Property{
@@ -43,6 +45,8 @@ func init() {
 			{ID: "C20.5", Desc: "no stuck goroutine: buffered result channel, select on ctx.Done", Run: func(c *Ctx) { ruleBoundedWaits(c, "C20.5", false) }, MinSites: 3},
 			{ID: "C20.6", Desc: "background request is conditional and on a clone", Run: func(c *Ctx) { ruleC20_6(c); ruleValidatorGuards(c, "C20.6") }, MinSites: 1},
 			{ID: "C20.7", Desc: "background failure is not returned to the caller", Run: ruleC20_7, MinSites: 1},
+			{ID: "C20.7", Desc: "inside the stale-while-revalidate window every answer goes through the spawning function; the window uses the current age", Run: func(c *Ctx) { ruleSWRBranchSpawns(c, "C20.7"); ruleSWRWindowAge(c, "C20.7") }, MinSites: 2},
+			{ID: "C20.8", Desc: "the background goroutine releases its waiter only after the reply was handled", Run: func(c *Ctx) { ruleNoReleaseBeforeWriteBack(c, "C20.8") }, MinSites: 1},
 		},
 	})
 }
